@@ -7,9 +7,10 @@ functions, linear values, two competing errors) the WHOLE real pipeline
 (`compile_function`, i.e. ENGINE.check + lowering + `Package.to_bytes()`) is run under
 the worklist orders of every dataflow-analysis invocation it makes, via hook H1 and
 `vlib.schedx.explore_program_schedules`:
-  * every order, when no explored CFG has more than FULL_LIMIT blocks,
-  * otherwise every order with at most K deviations from the default order
-    (the budget is shared by all invocations of one pipeline run).
+  * every order, when no explored CFG has more than FULL_LIMIT blocks (quick 6,
+    thorough 7),
+  * otherwise every order with at most K (quick 2, thorough 3) deviations from the
+    default order (the budget is shared by all invocations of one pipeline run).
 The product over invocations is explored (an invocation's distinct returned values —
 variable order and evidence block included — each continue the pipeline).
 Outcome of a run = sha256 of `to_bytes()` | the rendered diagnostic | the crash text.
@@ -22,8 +23,7 @@ from __future__ import annotations
 ID = "C10"
 LEVEL = "model_checking"
 
-FULL_LIMIT = 6      # blocks
-K = 2               # deviation bound above FULL_LIMIT
+BOUNDS = {"quick": (6, 2), "thorough": (7, 3)}   # (FULL_LIMIT blocks, K deviations)
 CROSSCHECK_STATES = 250   # programs explored with both explorer strategies (see schedx)
 
 CORPUS: dict = {}
@@ -673,16 +673,16 @@ def _classify(outcomes):
 
 def explore_program(task):
     """Worker: one program.  Never lets a BaseException escape (it would kill the pool)."""
-    name, src = task
+    name, src, full_limit, kdev = task
     try:
-        return _explore_program(name, src)
+        return _explore_program(name, src, full_limit, kdev)
     except BaseException as e:  # noqa: BLE001 - reported as a harness error by run()
         import traceback
         return {"name": name, "harness_error": f"{type(e).__name__}: {e}",
                 "tb": traceback.format_exc()[-1500:]}
 
 
-def _explore_program(name, src):
+def _explore_program(name, src, full_limit, kdev):
     import time
     from vlib import schedx
     t0 = time.process_time()
@@ -690,7 +690,7 @@ def _explore_program(name, src):
     probe = schedx.explore_program_schedules(src, "main", 0, strategy="inplace")
     sizes = [r.n_queue0 for r in probe["result"].invocations]
     maxq = max(sizes or [0])
-    k = None if maxq <= FULL_LIMIT else K
+    k = None if maxq <= full_limit else kdev
     out = schedx.explore_program_schedules(src, "main", k, strategy="inplace")
     res = out["result"]
     outcomes = out["outcomes"]
@@ -716,7 +716,8 @@ def _explore_program(name, src):
 
 
 def part1_worklists(ctx):
-    tasks = sorted(CORPUS.items())
+    full_limit, kdev = BOUNDS[ctx.tier]
+    tasks = [(n, s, full_limit, kdev) for n, s in sorted(CORPUS.items())]
     results = ctx.pmap(explore_program, tasks, chunk=1)
     cov = {"programs": len(tasks), "states": 0, "transitions": 0, "leaves": 0,
            "explored_invocations": 0, "thunk_runs": 0, "accepted": 0, "rejected": 0,
@@ -813,8 +814,8 @@ def run(ctx):
         "programs_with_order_dependent_outcome": p1["order_dependent_programs"],
         "programs_explored_fully": p1["full"],
         "programs_explored_with_deviation_bound": p1["bounded"],
-        "deviation_bound": K,
-        "full_exploration_block_limit": FULL_LIMIT,
+        "deviation_bound": BOUNDS[ctx.tier][1],
+        "full_exploration_block_limit": BOUNDS[ctx.tier][0],
         "explored_invocations": p1["explored_invocations"],
         "pipeline_runs": p1["thunk_runs"],
         "strategy_crosschecks": p1["crosschecked"],
